@@ -214,10 +214,10 @@ func (d *verifDumper) walk(p string, id uint32, depth int) {
 	// file surface
 	f, err := r.OpenFile(id)
 	if err != nil {
-		d.add("open", ph, "err")
+		d.add("fopen", ph, "err")
 		return
 	}
-	d.add("open", ph, "ok")
+	d.add("fopen", ph, "ok")
 	// chunk table walk + probes at every boundary +-1
 	probes := map[int64]bool{-1: true, 0: true, 1: true, attr.Size - 1: true, attr.Size: true, attr.Size + 1: true}
 	off := int64(0)
@@ -315,6 +315,13 @@ func verifSR(b []byte) *io.SectionReader {
 }
 
 // verifSpan tells which prefix of the TOC stream a digest covers.
+func verifSpanOf(l *verifLayer, store string, d digest.Digest) string {
+	if store == "mem" && l.compr == "zstd" && len(l.tocStream) > l.jsonLen {
+		return "unspec" // candidate finding toc-digest-span-zstd: depends on the decoder's read-ahead
+	}
+	return verifSpan(l, d)
+}
+
 func verifSpan(l *verifLayer, d digest.Digest) string {
 	if d == digest.FromBytes(l.tocStream) {
 		return "whole"
@@ -543,7 +550,7 @@ func (s *verifSession) dumpBoth(o *verifOpen, readAll bool) {
 	if o.mem != nil {
 		o.memDump = verifDump(o.mem, l, readAll)
 		s.emitDump("mem", o.tag, o.memDump)
-		out.Emit(fmt.Sprintf("tocspan mem %s %s %d %d", o.tag, l.compr, l.jsonLen, len(l.tocStream)-l.jsonLen), verifSpan(l, o.mem.TOCDigest()))
+		out.Emit(fmt.Sprintf("tocspan mem %s %s %d %d", o.tag, l.compr, l.jsonLen, len(l.tocStream)-l.jsonLen), verifSpanOf(l, "mem", o.mem.TOCDigest()))
 		for _, in := range o.memDump.incons {
 			out.Fail("surface-inconsistent:mem", fmt.Sprintf("layer %s [%s]: %s", o.tag, l.label, in))
 		}
@@ -551,7 +558,7 @@ func (s *verifSession) dumpBoth(o *verifOpen, readAll bool) {
 	if o.db != nil && !o.dbClosed {
 		o.dbDump = verifDump(o.db, l, readAll)
 		s.emitDump("db", o.tag, o.dbDump)
-		out.Emit(fmt.Sprintf("tocspan db %s %s %d %d", o.tag, l.compr, l.jsonLen, len(l.tocStream)-l.jsonLen), verifSpan(l, o.db.TOCDigest()))
+		out.Emit(fmt.Sprintf("tocspan db %s %s %d %d", o.tag, l.compr, l.jsonLen, len(l.tocStream)-l.jsonLen), verifSpanOf(l, "db", o.db.TOCDigest()))
 		for _, in := range o.dbDump.incons {
 			out.Fail("surface-inconsistent:db", fmt.Sprintf("layer %s [%s]: %s", o.tag, l.label, in))
 		}
